@@ -2,6 +2,8 @@ package chain
 
 import (
 	"fmt"
+	"net/http"
+	"net/url"
 	"strings"
 
 	"github.com/gookit/rux"
@@ -168,6 +170,7 @@ func (p *Program) Apply(w *World) *rux.Router {
 		}
 	}
 	run(p.Body)
+	w.Router = r
 	if p.Hooks.OnPanic != nil {
 		r.OnPanic = w.PanicHook(p.Hooks.OnPanic)
 	}
@@ -277,6 +280,40 @@ func (p *Program) Model() *PModel {
 	return pm
 }
 
+// EnableSub lets the model predict nested requests (one level deep).
+func (pm *PModel) EnableSub() {
+	inner := pm.Hooks
+	inner.Sub = nil
+	pm.Hooks.Sub = func(method, path string) string {
+		chain, ps, _ := pm.Expect(method, path)
+		req := &http.Request{Method: method, URL: &url.URL{Path: path}, Header: http.Header{}, Proto: "HTTP/1.1", ProtoMajor: 1, ProtoMinor: 1}
+		out, _ := ModelDispatch(chain, inner, NewRec(), req, ps, false)
+		return SubText(out)
+	}
+}
+
+// AllScripts lists the scripts of the program (not the hooks).
+func (p *Program) AllScripts() []*Script {
+	var out []*Script
+	var walk func(ss []*Stmt)
+	walk = func(ss []*Stmt) {
+		for _, s := range ss {
+			out = append(out, s.Hs...)
+			if s.Kind == "route" {
+				out = append(out, s.PreUse...)
+				out = append(out, s.Variadic...)
+				for _, l := range s.Later {
+					out = append(out, l...)
+				}
+				out = append(out, s.Main)
+			}
+			walk(s.Body)
+		}
+	}
+	walk(p.Body)
+	return out
+}
+
 // Expect resolves a request in the model: the handler chain that must run and the parameters.
 func (pm *PModel) Expect(method, path string) (chain []*Script, ps map[string]string, res model.Result) {
 	res = pm.Table.Resolve(method, path)
@@ -319,6 +356,7 @@ type ScriptCfg struct {
 	Data    bool // Set / AddError / Observe
 	Pollute bool // wrap c.Resp, replace c.Req, mutate Params
 	Yields  bool // scheduling points at entry, around Next() and at exit (C03)
+	Copies  bool // c.Copy() kept beyond the request
 	Nexts   []int
 }
 
@@ -334,6 +372,9 @@ func genMisc(t *rapid.T, cfg ScriptCfg) (op Op, ok bool) {
 	}
 	if cfg.Pollute {
 		kinds = append(kinds, OpWrapResp, OpReqCtx, OpSetParam)
+	}
+	if cfg.Copies {
+		kinds = append(kinds, OpCopy)
 	}
 	if len(kinds) == 0 {
 		return Op{}, false
@@ -592,25 +633,31 @@ type ReqInfo struct {
 // CheckRequest sends one request through the real router and through the
 // model and returns the difference ("" = none).
 func CheckRequest(w *World, r *rux.Router, pm *PModel, method, path string, faults ...Fault) (string, ReqInfo) {
+	msg, info, _ := CheckRequestState(w, r, pm, method, path, faults...)
+	return msg, info
+}
+
+// CheckRequestState is CheckRequest that also returns the real-side request state.
+func CheckRequestState(w *World, r *rux.Router, pm *PModel, method, path string, faults ...Fault) (string, ReqInfo, *ReqState) {
 	chain, ps, res := pm.Expect(method, path)
 	info := ReqInfo{Chain: chain, Res: res}
 	if len(chain) > 63 {
 		info.Skipped = true
-		return "", info
+		return "", info, nil
 	}
 	st := w.NewRequest(method, path, faults...)
 	st.NoAbt = len(chain) == 63 // known finding K1: IsAborted is not observed for chains of exactly 63 handlers
 	real := st.Serve(r)
 	want, _ := ModelDispatch(chain, pm.Hooks, NewRec(faults...), st.Req, ps, st.NoAbt)
 	if d := Diff(real, want); d != "" {
-		return fmt.Sprintf("%s %q (%s, chain [%s] of %d handlers):\n%s", method, path, res.Kind, names(chain), len(chain), d), info
+		return fmt.Sprintf("%s %q (%s, chain [%s] of %d handlers):\n%s", method, path, res.Kind, names(chain), len(chain), d), info, st
 	}
 	if real.Escaped == nil {
 		if err := st.Rec.CheckCommit(); err != nil {
-			return fmt.Sprintf("%s %q: %v", method, path, err), info
+			return fmt.Sprintf("%s %q: %v", method, path, err), info, st
 		}
 	}
-	return "", info
+	return "", info, st
 }
 
 // Requests draws the probes for a program: every route, 404s, other methods.
